@@ -4,6 +4,8 @@ import (
 	"encoding/hex"
 	"encoding/json"
 	"fmt"
+	"reflect"
+	"strings"
 	"testing"
 
 	"github.com/elementsproject/peerswap/swap"
@@ -233,4 +235,62 @@ func TestC14RestartEveryCrashPoint(t *testing.T) {
 			}
 		}
 	}
+}
+
+// TestC14HistoryRecordsReload: every record a node writes during generated histories - including the ones
+// written after invalid or unexpected counterparty messages, faults and restarts - can be read back by a
+// fresh store handle (GetData and ListAll succeed) and re-encodes to the bytes that were written.
+func TestC14HistoryRecordsReload(t *testing.T) {
+	col := stats.Get("C14.history-reload")
+	rapid.Check(t, func(t *rapid.T) {
+		h := newHist(t, HistCfg{MaxSteps: 22, Chains: []string{"btc", "lbtc"}, Restarts: true, Faults: true, Timeouts: true, PeerMoves: true, PayOutcomes: true, MultiSwap: true,
+			Weights: map[string]int{"start": 2, "progress": 10, "deliver": 2, "settle": 1, "restart": 1, "mine": 2, "watcher": 1, "paid": 1, "timeout": 1, "payplan": 1, "resolve": 1, "fault": 1, "peermove": 2, "inject": 4}})
+		defer h.Close()
+		seen := map[string]int{}
+		h.monitors = []func(*Hist){func(h *Hist) {
+			for _, n := range h.nodes() {
+				if n.DB == nil || len(n.Writes) == seen[n.Name] {
+					continue
+				}
+				latest := map[string]*sim.StoreWrite{}
+				for _, w := range n.Writes {
+					latest[w.SwapId] = w
+				}
+				seen[n.Name] = len(n.Writes)
+				st, err := swap.NewBboltStore(n.DB)
+				if err != nil {
+					t.Fatalf("harness: store: %v", err)
+				}
+				if _, err := st.ListAll(); err != nil {
+					h.stop = col.Violation(h.T, "C14/records-unreadable:ListAll", "%s: a fresh store handle cannot list the swaps any more: %v\n%s", n.Name, err, h.dump())
+					return
+				}
+				for id, w := range latest {
+					rec, err := st.GetData(id)
+					if err != nil {
+						h.stop = col.Violation(h.T, "C14/records-unreadable:GetData", "%s: record of swap %s (written in %s) cannot be read back: %v\n%s", n.Name, id[:6], w.State, err, h.dump())
+						return
+					}
+					b, _ := json.Marshal(rec)
+					var a1, a2 interface{}
+					_ = json.Unmarshal(b, &a1)
+					_ = json.Unmarshal(w.JSON, &a2)
+					if !reflect.DeepEqual(a1, a2) {
+						h.stop = col.Violation(h.T, "C14/history-record-reload-differs", "%s: record of swap %s written in %s reloads differently\n written %s\n reloads %s\n%s", n.Name, id[:6], w.State, w.JSON, b, h.dump())
+						return
+					}
+				}
+			}
+		}}
+		acts := h.stdActions()
+		acts["inject"] = h.actInject(func(*Hist, *injected) {})
+		h.run(acts)
+		nt := false
+		for c := range h.Classes {
+			if strings.HasPrefix(c, "inject-bad-content:bob") || strings.HasPrefix(c, "peermove") {
+				nt = true
+			}
+		}
+		col.Case(h.Key(), nt, h.Ops, h.classList()...)
+	})
 }
